@@ -479,7 +479,7 @@ func runC13(ctx *Ctx) error {
 		fails, _ := sc.run(r)
 		drops := dl.take()
 		for _, f := range fails {
-			if drops > 0 {
+			if drops > 0 && f.Site == "read-stream" {
 				f.Site = "enqueue-drop"
 			}
 			f.Case = sc.describe()
@@ -741,6 +741,22 @@ func (sc c13Scenario) run(r Rng) (fails []Failure, reads *c13Reads) {
 					break
 				}
 				got = append(got, buf[:n]...)
+			}
+			// whatever is lost under a burst (known finding), what Read yields must still be the
+			// payloads of an order-preserving sub-sequence of the frames (theorem C13_pipeline_order)
+			rest, next := got, 0
+			for len(rest) > 0 {
+				found := false
+				for k := next; k < len(sc.inbound); k++ {
+					if bytes.HasPrefix(rest, sc.inbound[k]) {
+						rest, next, found = rest[len(sc.inbound[k]):], k+1, true
+						break
+					}
+				}
+				if !found {
+					fail("read-order", "burst: Read yielded bytes that are not the payloads of a sub-sequence of the frames sent, at offset %d: %q", len(got)-len(rest), trunc(string(rest)))
+					break
+				}
 			}
 			if !bytes.Equal(got, wantAll) {
 				fail("read-stream", "burst of %d frames in one TCP write: Read yielded %d of %d bytes", len(sc.inbound), len(got), len(wantAll))
